@@ -116,6 +116,11 @@ Theorem FF_FloatIntExact : forall tab : table, powf_sq_table tab -> FloatIntExac
 Proof. exact flocq_FloatIntExact. Qed.
 Print Assumptions FF_FloatIntExact.
 
+(* the condition on the table is satisfiable: the table of the 8191 exact squares *)
+Theorem FF_powf_sq_table_inhabited : exists tab : table, powf_sq_table tab.
+Proof. exact (ex_intro _ sq_table powf_sq_table_inhabited). Qed.
+Print Assumptions FF_powf_sq_table_inhabited.
+
 (* ... and, for every table, for the instance whose oracle answers powf(x, 2.0) by x * x (all
    other operations are those of [flocq_ops tab]; the Release build computes x * x itself) *)
 Theorem FF_FloatIntExact_sq : forall tab : table, FloatIntExact (with_sq_powf (flocq_ops tab)).
